@@ -91,7 +91,9 @@ def case(g, tier, ci):
     if ci % 8 == 5:
         # a channel re-assigned with the SAME blueprint at another sample rate (equal segments, so `==` to the stored one):
         # the channel takes the new rate (seeded C06-m18: the call dropped as a no-op)
-        bch = [o for o in ops if o["op"] == "el.addBP" and o["id"] == "e"]
+        # (only blueprints that run at the element's own rate: a whole multiple of it keeps their durations whole samples)
+        bch = [o for o in ops if o["op"] == "el.addBP" and o["id"] == "e" and
+               [x["SR"] for x in ops if x["op"] == "bp.setSR" and x["id"] == o["bp"]] == [enc(SR)]]
         if bch:
             tgt = r.choice(bch)
             ops += [{"op": "bp.setSR", "id": tgt["bp"], "SR": enc(SR * r.choice([2, 4]))}, {"op": "el.addBP", "id": "e", "ch": tgt["ch"], "bp": tgt["bp"]}]
